@@ -8,6 +8,7 @@ package server
 
 import (
 	"fmt"
+	"os"
 	"runtime"
 	"sort"
 	"strings"
@@ -147,6 +148,17 @@ var c15ND = porcupine.NondeterministicModel{
 }
 
 var c15Model = c15ND.ToModel()
+
+// c15Det: the same model without the cut-off nondeterminism.
+var c15Det = porcupine.Model{
+	Partition: c15Partition,
+	Init:      func() interface{} { return c15State{Cap: -1, OK: true} },
+	Step: func(st, in, out interface{}) (bool, interface{}) {
+		ok, n := c15Step(st.(c15State), in.(c15In), out.(c15Out))
+		return ok, n
+	},
+	DescribeOperation: c15ND.DescribeOperation,
+}
 
 type c15Conn struct {
 	uid int
@@ -412,6 +424,7 @@ func TestVerif_C15(t *testing.T) {
 					run.burst([][2]uint32{{uint32(u), 1000}}, transport, false)
 				}
 			}
+			notOK := make([]bool, nu)
 			steps := 4 + rng.IntN(5)
 			for s := 0; s < steps && run.vkind == ""; s++ {
 				switch rng.IntN(6) {
@@ -466,8 +479,32 @@ func TestVerif_C15(t *testing.T) {
 						run.admin(u, "setcap", nc)
 					case 1:
 						run.admin(u, "setok", []int{0, -1, -2}[rng.IntN(3)])
+						notOK[u] = true
 					default:
-						run.admin(u, "setok", 1)
+						if notOK[u] {
+							// while the user was without credit / past expiry the server may have cut it off at a
+							// moment the history does not show. Before credit is restored, close (and record)
+							// whatever may be left, so that the model's state is certain again, then re-anchor
+							run.mu.Lock()
+							var left [][2]uint32
+							for k := range run.conns {
+								if int(k[0]) == u {
+									left = append(left, k)
+								}
+							}
+							run.mu.Unlock()
+							sort.Slice(left, func(a, b int) bool { return left[a][1] < left[b][1] })
+							for _, k := range left {
+								run.closeSession(u, k[1])
+							}
+							run.admin(u, "setok", 1)
+							notOK[u] = false
+							if caps[u] > 0 {
+								run.burst([][2]uint32{{uint32(u), uint32(3000 + s)}}, transport, false)
+							}
+						} else {
+							run.admin(u, "setok", 1)
+						}
 					}
 				}
 				run.capInvariant(caps)
@@ -489,8 +526,21 @@ func TestVerif_C15(t *testing.T) {
 		r.Count("evaluations", 1)
 		r.Distinct("cases", vk.Hash64("c15", i))
 		if run.vkind == "" {
-			res, info := porcupine.CheckOperationsVerbose(c15Model, run.hist, 2*time.Minute)
-			_ = info
+			// first the deterministic model (no cut-offs): whatever it accepts the nondeterministic one
+			// accepts too, and it is much cheaper to search; only histories it cannot linearize (a user
+			// was cut off in the middle, or a real violation) go to the nondeterministic model
+			res, _ := porcupine.CheckOperationsVerbose(c15Det, run.hist, time.Minute)
+			if res == porcupine.Ok {
+				r.Count("linearized_by_deterministic_model", 1)
+			} else {
+				res, _ = porcupine.CheckOperationsVerbose(c15Model, run.hist, 5*time.Minute)
+				r.Count("needed_nondeterministic_model", 1)
+				if os.Getenv("C15_DUMP") != "" {
+					for _, o := range run.hist {
+						fmt.Fprintf(os.Stderr, "C15HIST [%d,%d] %s\n", o.Call, o.Return, c15ND.DescribeOperation(o.Input, o.Output))
+					}
+				}
+			}
 			switch res {
 			case porcupine.Illegal:
 				var lines []string
